@@ -31,7 +31,7 @@ class DelayManager(MpfController):
 
     def __init__(self, machine: "MachineController") -> None:
         """Initialize delay manager."""
-        self.delays = {}        # type: Dict[str, Tuple[Any, Callable]]
+        self.delays = {}        # type: Dict[str, Tuple[Any, Callable, dict]]
         super().__init__(machine)
 
     def add(self, ms: int, callback: Callable[..., None], name: str = None,
@@ -66,7 +66,7 @@ class DelayManager(MpfController):
 
         self.delays[name] = (self.machine.clock.schedule_once(
             partial(self._process_delay_callback, name, callback, **kwargs),
-            ms / 1000.0), callback)
+            ms / 1000.0), callback, kwargs)
 
         return name
 
@@ -174,8 +174,9 @@ class DelayManager(MpfController):
                 # schedules a new delay with the same name, then the removal
                 # will remove it
                 cb = self.delays[name][1]
+                kwargs = self.delays[name][2]
                 self.remove(name)
-                cb()
+                cb(**kwargs)
             except KeyError:
                 pass
 
